@@ -160,6 +160,9 @@ func cmdCheck(args []string) {
 			if !hasProp(con, *prop) {
 				continue
 			}
+			if con.Options["tier"] == "thorough" && !thoroughTier {
+				continue // functions whose obligations need more than the quick limits are decided in the thorough tier only
+			}
 			if ci > 0 && !e.differsFromFirst(k, tc.configs[0]) {
 				continue
 			}
